@@ -123,6 +123,7 @@ func genC11(seed uint64) *Plan {
 	pr.AddPathTXProb = 0.9
 	pr.NPrefixes = 3
 	pr.RoleProb = 0.3
+	pr.AddPathRXProb = 0.5
 	pr.W = map[string]int{"announce": 8, "withdraw": 7, "wait": 1, "clone": 5}
 	// several neighbours of one AS (iBGP ones) so that paths can agree in everything but one attribute
 	pr.KindWeights = map[string]int{"ebgp": 2, "rs": 1, "ibgp": 3, "rr": 3}
